@@ -5,11 +5,37 @@ HERE = os.path.dirname(os.path.dirname(os.path.abspath(__file__)))
 MC = "model_checking"
 EX = "exploration"
 CHECKS = {
+ "C01": dict(cat=MC, engine="E1",
+   technique="explicit-state exploration of the real canister (exhaustive DFS over block-arrival histories with transaction bodies, duplicate detection on the complete logical state) with a brute-force ledger replay as oracle",
+   text="Every state reachable by <= n blocks (n=4 quick, 5 thorough) over a menu of 8 transaction bodies (<= 2-3 non-default per history), all tree shapes and arrival orders, thresholds 1-3, three networks: every book address (P2PKH, P2SH, P2WPKH, P2WSH, P2TR, a colliding P2WPKH/P2WSH prefix pair) is queried with all pages followed (page sizes 1000 and 1/2) and compared, as a set with values and heights, with the ledger replayed from genesis to the named tip. Plus the real 1000-per-page limit on 999..2001 outputs.",
+   note="domain: transaction-valid blocks; address<->script mapping and hashing shared with rust-bitcoin; order inside one height not compared",
+   ref="DESIGN.md §6 C01"),
  "C02": dict(cat=MC, engine="E1",
    technique="explicit-state exploration of the real canister: exhaustive DFS over block-arrival histories (all tree shapes x arrival orders x difficulty assignments x thresholds) with a brute-force reference chain selection as oracle in every state",
    text="Every state reachable by <= n block deliveries (n=5 quick, 6-7 thorough; difficulties {1,2,3}; thresholds 1-3; regtest through full validation, mainnet/testnet through push) is visited on the real code and get_blockchain_info / unfiltered get_utxos / get_balance / get_block_headers are compared with the heaviest chain recomputed by brute force (all leaf paths, (sum difficulty, length), arrival tie-break). Bounded exhaustive: nothing is claimed beyond the bound.",
    note="rust-bitcoin hashing/serialisation shared with the implementation; mock difficulty via feature mock_difficulty; ingestion unsliced in this check (sliced states belong to C07/C08)",
    ref="DESIGN.md §6 C02"),
+ "C03": dict(cat=MC, engine="E1",
+   technique="explicit-state exploration of the real canister with history monitors on every transition (six finality clauses) plus an exhaustively enumerated depth-escape family",
+   text="All TREE histories (<= 4-5 quick, 5-7 thorough blocks; difficulties 1-3; thresholds 1-3 incl. set_config changes mid-history; three networks) with monitors on every transition: stable height monotone, recorded stable blocks immutable and on the anchor chain, every anchor advance goes to the child that qualifies under the difficulty rule (recomputed from scratch), no qualifying child is left after an ingestion opportunity, the new anchor is the second block of the served chain, blocks disappear only with the advance and exactly the losers. Depth escape: heavy anchor, main branch grown to 520 blocks against forks of 0-5 blocks, bound recomputed in exact rational arithmetic.",
+   note="escape judged only where runner-up is unambiguous; wide-and-deep trees only via the family",
+   ref="DESIGN.md §6 C03"),
+ "C04": dict(cat=MC, engine="E1",
+   technique="explicit-state exploration of the real canister; in every state all c in [1, L+2] x all addresses against the ledger at B(c) recomputed from the stability-count definition",
+   text="LEDGER/TREE histories as C01 (equal and mixed difficulty); for every address and every c the named tip must be B(c) and the paged answer must equal the ledger at B(c); c > L must be refused with the explicit error.",
+   note="c=0 belongs to C01/C02", ref="DESIGN.md §6 C04"),
+ "C05": dict(cat=MC, engine="E1",
+   technique="explicit-state exploration of the real canister incl. states in the middle of sliced ingestion; differential oracle balance vs sum of paged UTXOs, error classes, query vs update variants",
+   text="In every explored state (forks, paused ingestion with budgets 1/2), for every address and c in {none, 0..L+1}: get_balance == sum over all pages of get_utxos; ~45 malformed / foreign-network address strings must be refused by both with the same error class; update variants return what query variants return.",
+   note="differential: needs no reference value", ref="DESIGN.md §6 C05"),
+ "C07": dict(cat=MC, engine="E1",
+   technique="explicit-state exploration of the real canister with sliced ingestion and upgrades; all (start,end) pairs per state against the reference chain; long-chain boundary family",
+   text="TREE histories with ingestion budgets 1/2/unlimited (every pause point of the explored shapes) and upgrades; in every state all (start, end) up to tip+2 are compared header by header with the reference chain, errors with the documented ones; a 130/230-block family probes the 100-header cap and the stable boundary with and without a paused ingestion.",
+   note="where two documented errors apply either is accepted", ref="DESIGN.md §6 C07"),
+ "C08": dict(cat=MC, engine="E2",
+   technique="exhaustive enumeration of all budget schedules (compositions of the slicing call sites) of a stabilising block, driven through the real heartbeat; state-equality across schedules and probe-equality against the pre-ingestion answers",
+   text="For 7 block shapes (spends of stable outputs, same-block spend, non-address scripts, many addresses, several blocks per round, fork discarded by the advance) all 2^(m-1) sequences of per-round budgets (m <= 14 quick, 18 thorough) are run through heartbeat() with a source that always offers a further block: no fetch while ingesting, every pause position reaches one identical state whatever the schedule, all probe answers at pauses equal those before that block's ingestion began, the final state equals the unsliced run, at most m rounds.",
+   note="budgets are counted in slicing call sites; statistics masked in fingerprints", ref="DESIGN.md §6 C08"),
 }
 ALL = ["C%02d" % i for i in range(1, 21)]
 hooks_commits = subprocess.run(["git", "-C", "/repo", "log", "--format=%H %s", "6e0e362f..HEAD"],
@@ -26,7 +52,9 @@ m = {
   "add_only": True,
  },
  "engines": [
-  {"name": "E1", "path": "harness/src/engine.rs", "serves_properties": [], "kind_free_text": "explicit-state DFS over event histories of the real canister (state = history, backtracking = reset + replay), reference model in lock-step, 16 workers"},
+  {"name": "E1", "path": "harness/src/engine.rs", "serves_properties": [], "kind_free_text": "explicit-state DFS over event histories of the real canister (state = history, backtracking = reset + replay, duplicate detection on the complete logical state), reference model in lock-step, 16 workers"},
+  {"name": "E2", "path": "harness/src/props/c08.rs", "serves_properties": [], "kind_free_text": "stateless exhaustive schedule enumeration (message/budget schedules at the await and slicing points), deviation-bounded where stated"},
+  {"name": "E3", "path": "harness/src/props", "serves_properties": [], "kind_free_text": "bounded-exhaustive enumeration of a finite input product against a reference implementation"},
  ],
  "checks": [],
  "not_applicable": [],
